@@ -365,6 +365,11 @@ pub fn pp2_dev_case(s: &mut Session, sc: &Pp2Dev) {
     s.oracle("ppf2-devs:offset-list-in-writing-order", dev_ids == expect_ids, name, || {
         format!("{} offsets, {} non-null device fields", dev_ids.len(), expect_ids.len())
     });
+    // object identity and byte length of every linked device table (for the size-loop model)
+    let dev_objs: Vec<u64> = st0.links.iter().skip(3).map(|l| l.2).collect();
+    let dev_sizes: Vec<usize> = dev_objs.iter().map(|id| objs0[id].bytes.len()).collect();
+    let cd2_size = link_at(st0, 10).map(|id| objs0[&id].bytes.len()).unwrap_or(0);
+    let shared_devs = dev_objs.len() - dev_objs.iter().collect::<std::collections::BTreeSet<_>>().len();
     drop(g0);
     let mut g = VGraph::from_table(&gpos);
     let Some(lookup_id) = g.objects().iter().find(|o| o.type_name == "GPOS2Pair").map(|o| o.id) else { return };
@@ -466,6 +471,27 @@ pub fn pp2_dev_case(s: &mut Session, sc: &Pp2Dev) {
         bad.clone().unwrap_or_else(|| format!("{n_cells} cells after the split, {} before", sc.k1 * sc.k2))
     });
     s.case("ppf2.devs", mk_req(&points), parts.join(" | "));
+    // the size loop with device tables (visited set, re-count at a split): piece ends of the real run
+    // versus `ppf2DPieces`; the estimate of every piece is checked against the real pieces' bytes
+    s.count(if shared_devs > 0 { "ppf2.dpoints:with-shared-device-objects" } else { "ppf2.dpoints:all-device-objects-distinct" });
+    let req = format!(
+        "ppf2.dpoints {} | {} | {} {} {cd2_size} | {flags_s} | {} | {}",
+        render_cov_bytes(&cov_b),
+        render_cd_bytes(&cd1_b),
+        sc.k2,
+        sc.k2 * stride,
+        join(&dev_objs),
+        join(&dev_sizes)
+    );
+    // what each real piece needs: its own bytes + every distinct device object it links, once
+    let real_sizes: Vec<usize> = subs
+        .iter()
+        .map(|st| {
+            let devs: std::collections::BTreeSet<u64> = st.links.iter().skip(3).map(|l| l.2).collect();
+            st.bytes.len() + devs.iter().map(|id| objs[id].bytes.len()).sum::<usize>()
+        })
+        .collect();
+    s.case("ppf2.dpoints", req, format!("{} | {}", join(&points), join(&real_sizes)));
 }
 
 pub fn gen_pp2_dev(rng: &mut Rng, s: &mut Session, _thorough: bool) -> Pp2Dev {
